@@ -15,7 +15,9 @@ from harness.lib import gateworld as GW
 RULE = ("per gate (perf, perf.parallel, graph, t2.quality, t2.hybrid, t3.reflection, scheduler): generated worlds with "
         "several memory owners, GEL edges, two concept graphs, repeated queries; validated base configurations with the "
         "other features randomly on; the gated subtree absent vs. present with validator-accepted extreme values while "
-        "the flag is off; a case is non-trivial when the gated code would have had work (tags work:*) or another feature "
+        "the flag is off; plus, per gate, an EXHAUSTIVE sweep (every leaf of the owned subtree x every pool value, small ones included) on "
+        "multi-turn histories that revisit earlier queries with every interacting feature on, and the same differential through the real agent "
+        "batch driver for the perf / perf.parallel gates; the number of cases depends on (seed, tier) only; a case is non-trivial when the gated code would have had work (tags work:*) or another feature "
         "is on in the base; distinct by canonical JSON of (gate, world, base, assignment)")
 ASSUMPTIONS = [
     "configurations are outputs of configs.validate.validate_config (the property quantifies over validated configurations)",
@@ -38,7 +40,10 @@ CLAIM = {
              "reflection-gated; finding C02:inert:scheduler:scheduler.budgets.ops_reflection). Stage internals are not modelled: what a site "
              "does with the leaves it consumes is a parameter, and the hand-declared read-sets/emits of the table are only covered by the "
              "differential. `normalize` not materialising perf / t2.quality is covered by correspondence only (validator monitor). "
-             "The unguarded MMR fallback call in apply_quality is an advisory site (its callee carries the gate)."),
+             "The unguarded MMR fallback call in apply_quality is an advisory site (its callee carries the gate). "
+             "Agent batch driver: its gate implies perf.parallel.enabled (table) but not perf.enabled (C02_agents_ignore_master_witness); the "
+             "closed-master x open-parallel batch cases run only on a tree where it does (NOTE otherwise, proposed finding). "
+             "normalize() carrying a gated value outside its subtree is a Python-side monitor (validator_leak)."),
     "technique": "Lean 4 non-interference proof over an AST-generated gate table + real-engine subtree differential",
     "design_ref": "DESIGN.md §4 C02, §5 row 9",
 }
@@ -55,6 +60,7 @@ MODELLED = {
     "clematis/engine/stages/t2/metrics.py": ["assemble_metrics"],
     "clematis/engine/stages/hybrid.py": ["rerank_with_gel"],
     "clematis/engine/util/metrics.py": ["gate_on"],
+    "clematis/engine/orchestrator/parallel.py": ["_agents_parallel_enabled", "_run_agents_parallel_batch"],
 }
 TRUSTED = [
     "hand-declared per-site read-sets and emitted artefacts in harness/tables/gates.py (predicates are extracted from the AST; "
@@ -66,6 +72,8 @@ BUDGET = {"quick": 30, "thorough": 450, "search": 900}       # cases per gate
 MUST_ARTEFACTS = ["gel.jsonl", "t3_reflection.jsonl", "rq_traces.jsonl", "t1.perf_keys", "t1.parallel_keys",
                   "t2.perf_keys", "t2q.keys", "turn.slice_keys"]
 COMP = "inert"
+READER_DEFAULTS = {"t2.quality.redact": True, "t2.quality.trace_dir": "logs/quality"}
+SWEEP_WORLDS = {"quick": 1, "thorough": 3, "search": 4}
 
 
 # ---------------------------------------------------------------------------------------------
@@ -194,10 +202,45 @@ def classify(gate: str, minimal: Dict[str, Any]) -> str:
     return f"C02:inert:{gate}:{'.'.join(pre)}"
 
 
+def batch_assignments(gate: str, agents_master: bool) -> List[Tuple[Dict[str, Any], Dict[str, Any]]]:
+    """(assignment, base) pairs for the batch-driver stream."""
+    out: List[Tuple[Dict[str, Any], Dict[str, Any]]] = []
+    par_open = {"perf.parallel.agents": True, "perf.parallel.max_workers": 2}
+    par_all = {"perf.parallel.agents": True, "perf.parallel.max_workers": 8, "perf.parallel.t1": True, "perf.parallel.t2": True}
+    if gate == "perf.parallel":
+        bases = [{"perf": {"enabled": True}}, {"perf": {"enabled": True, "metrics": {"report_memory": True}}}, {}]
+        for base in bases:
+            out += [(par_open, base), (par_all, base), ({"perf.parallel.agents": True}, base),
+                    ({"perf.parallel.max_workers": 2}, base)]
+    else:
+        base = GW.sweep_base("perf", False)
+        for leaf in ("perf.t1.cache.max_entries", "perf.t2.cache.max_entries", "perf.t1.caps.frontier",
+                     "perf.t1.dedupe_window", "perf.metrics.report_memory", "perf.snapshots.every_n_turns"):
+            out.append(({leaf: GW.POOLS["perf"][leaf][1 if leaf.endswith("max_entries") else 0]}, base))
+        if agents_master:
+            # only meaningful on a tree where the batch gate consults the master switch (Lean: agentsMaster holds);
+            # otherwise this is the open finding reported as a NOTE below
+            on = dict(par_open, **{"perf.parallel.enabled": True})
+            out += [(on, base), (on, {})]
+    return out
+
+
 class Runner:
     def __init__(self, ctx: Ctx):
         self.ctx = ctx
         self.n = 0
+        self.skipped_nondet = 0
+        self._memo: Dict[str, Any] = {}
+
+    def run_memo(self, world, cfg):
+        """Baseline runs of the sweep share (world, configuration): run once."""
+        import hashlib
+        k = hashlib.sha1(json.dumps([world, cfg], sort_keys=True, default=repr).encode()).hexdigest()
+        if k not in self._memo:
+            if len(self._memo) > 8:
+                self._memo.clear()
+            self._memo[k] = self.run(world, cfg)
+        return self._memo[k]
 
     def run(self, world, cfg, tracer=None):
         self.n += 1
@@ -315,15 +358,31 @@ def eval_case(ctx: Ctx, R: Runner, case: Dict[str, Any], lean_reqs: List[Tuple[d
     if GW.get_path(absent_cfg, "t2.quality") is None:
         mons.append(("validator_no_quality", "quality" not in (na.get("t2") or {}),
                      f"normalize created t2.quality={(na.get('t2') or {}).get('quality')!r}"))
-    a = R.run(case["world"], absent_cfg)
+    # the validator itself must not carry a value of the gated-off subtree to anywhere outside it
+    pref, flag = GW.GATES[gate]["sub"] + ".", GW.GATES[gate]["flag"]
+    la = {p: v for p, v in GW.leaves(na) if not (p + ".").startswith(pref)}
+    lb = {p: v for p, v in GW.leaves(nb) if not (p + ".").startswith(pref)}
+    def _same(p):
+        if p in la and p in lb:
+            return la[p] == lb[p]
+        v = la.get(p, lb.get(p))          # materialised on one side only: fine when it is the reader-side default
+        return (not v) or READER_DEFAULTS.get(p, object()) == v
+    bad = sorted(p for p in set(la) | set(lb) if not _same(p))
+    if bad:
+        ctx.monitor_fail(COMP, "validator_leak", case,
+                         f"gate {gate} off: normalize() lets the gated subtree change {bad[:4]} outside it "
+                         f"({la.get(bad[0], '<absent>')!r} -> {lb.get(bad[0], '<absent>')!r})", None,
+                         key=f"C02:validator_leak:{gate}:{bad[0]}")
+    a = R.run_memo(case["world"], absent_cfg) if case.get("sweep") else R.run(case["world"], absent_cfg)
     b = R.run(case["world"], adv_cfg)
-    tags = [f"gate:{gate}"] + work_tags(case, a)
+    tags = [f"gate:{gate}"] + work_tags(case, a) + (["sweep"] if case.get("sweep") else [])
     res: Dict[str, Any] = {"skipped": False, "diff": None}
     if a != b:
         a2 = R.run(case["world"], absent_cfg)
         if a2 != a:
             ctx.note(f"non-deterministic baseline skipped ({first_diff(a, a2)[:160]})")
             ctx.record_case(COMP, case, ["nondeterministic-baseline"], validated=False)
+            R.skipped_nondet += 1
             return {"skipped": True}
         minimal = shrink_assignment(R, case, absent_cfg, a)
         adv_min = GW.apply_assignment(absent_cfg, gate, minimal)
@@ -409,7 +468,9 @@ def lean_round(ctx: Ctx, lean_reqs: List[Tuple[dict, dict, str]]) -> None:
 def run(ctx: Ctx) -> None:
     R = Runner(ctx)
     st = run_driver([{"c": "gates.status"}])[0].get("ok", {})
-    ctx.extra["gate_table_status"] = {k: st.get(k) for k in ("tableOK", "consistent", "parallel_master", "sites", "leaves")}
+    ctx.extra["gate_table_status"] = {k: st.get(k) for k in ("tableOK", "consistent", "parallel_master", "agents_master",
+                                                             "sites", "leaves")}
+    agents_master = bool(st.get("agents_master"))
     per_gate = int(BUDGET.get(ctx.tier, BUDGET["quick"]) * ctx.budget_scale)
     leads: Dict[str, set] = {}
     lean_reqs: List[Tuple[dict, dict, str]] = []
@@ -418,21 +479,28 @@ def run(ctx: Ctx) -> None:
         eval_case(ctx, R, case, lean_reqs)
     for gate in GW.GATE_ORDER:
         rng = ctx.rng_for(f"{COMP}:{gate}")
-        followups: List[Dict[str, Any]] = []
         for i in range(per_gate):
             case = gen_case(rng, gate, i)
-            res = eval_case(ctx, R, case, lean_reqs, trace=(i % 6 == 0), leads=leads)
-            if i % 6 == 0 and not res.get("skipped") and len(followups) < (3 if ctx.tier == "quick" else 25):
-                followups.append(case)
-        # per-leaf perturbation on the leaves the engine was SEEN reading while the gate is off
-        lead_leaves = sorted(p for p in leads.get(gate, set()) if not p.startswith("iter:") and p in GW.POOLS[gate])
-        for case in followups:
-            for p in lead_leaves:
-                for v in GW.POOLS[gate][p]:
-                    c2 = dict(case, assign={p: v})
-                    absent_cfg, adv_cfg = derive(gate, c2["base"], c2["assign"])
-                    if GW.validate(adv_cfg)[1] is not None:
-                        continue
+            eval_case(ctx, R, case, lean_reqs, trace=(i % 6 == 0), leads=leads)
+        # exhaustive per-leaf sweep: closed gate x EVERY leaf of the owned subtree x every pool value (small ones
+        # included) on multi-turn histories that revisit earlier queries, every interacting feature on in the base.
+        # The number of cases is a function of (seed, tier) only.
+        srng = ctx.rng_for(f"{COMP}:sweep:{gate}")
+        for wi in range(SWEEP_WORLDS.get(ctx.tier, 1)):
+            world = GW.gen_revisit_world(srng)
+            for t4_on in ((False,) if ctx.tier == "quick" else (False, True)):
+                base = GW.sweep_base(gate, t4_on)
+                for leaf in sorted(GW.POOLS[gate]):
+                    for v in GW.POOLS[gate][leaf]:
+                        c2 = {"gate": gate, "world": world, "base": base, "assign": {leaf: v}, "sweep": True}
+                        eval_case(ctx, R, c2, lean_reqs)
+        # agent batch driver (the entry point behind perf.parallel.agents): the same closed-gate differential with the
+        # turns after the first driven through the REAL `_run_agents_parallel_batch` for two agents sharing a graph
+        if gate in ("perf", "perf.parallel"):
+            for wi in range(SWEEP_WORLDS.get(ctx.tier, 1)):
+                world = dict(GW.gen_revisit_world(srng), batch=True)
+                for assign, base in batch_assignments(gate, agents_master):
+                    c2 = {"gate": gate, "world": world, "base": base, "assign": assign, "sweep": True}
                     eval_case(ctx, R, c2, lean_reqs)
         if len(lean_reqs) > 3000:
             lean_round(ctx, lean_reqs)
@@ -440,6 +508,17 @@ def run(ctx: Ctx) -> None:
     lean_round(ctx, lean_reqs)
     ctx.extra["readset_leads"] = {g: sorted(v) for g, v in sorted(leads.items())}
     ctx.extra["engine_runs"] = R.n
+    if not agents_master:
+        ctx.note("agent batch driver: _agents_parallel_enabled does not consult perf.enabled (Lean: C02_agents_ignore_master_witness, "
+                 "right disjunct) — with perf.enabled=false and perf.parallel={enabled,agents,max_workers>=2} the batch takes the "
+                 "compute-then-commit path; see proposed_findings/C02.json and proposed_fixes/C02_agents_master_switch.diff")
+    ctx.extra["skipped_nondeterministic_baseline"] = R.skipped_nondet
+    if R.skipped_nondet > max(3, ctx.evaluations // 20):
+        # coverage collapsed (e.g. the rig or the engine put something run-specific into the observation):
+        # that is an infrastructure problem, never a quiet pass
+        from harness.core import Infra
+        raise Infra(f"{R.skipped_nondet} of {ctx.evaluations} cases skipped: identical configuration and world gave different "
+                    f"observations on two runs; the differential has lost its baseline")
 
 
 def _decanon(x: Any) -> Any:
